@@ -182,6 +182,37 @@ def destination_identity(P, R, rule='C18.TAB.6'):
     R.floor(rule, 1)
 
 
+def complete_text(P, R, rule='C18.MPT.5'):
+    """Every line written is complete: a message formatted into a fixed buffer with (v)snprintf is only used as the whole
+    message when it fitted - the function compares the formatter's result with the size it passed (the C99 formatters
+    return the length NEEDED; only testing for a negative result lets a longer message through cut off at the
+    buffer's size)."""
+    n = 0
+    for f in P.unit_fns('src/log.c'):
+        for s in f.stores():
+            rhs = s.ev.get('rhs') if s.ev['k'] == 'store' else s.ev.get('init') if s.ev['k'] == 'decl' else None
+            if not (isinstance(rhs, dict) and rhs.get('k') == 'callref' and rhs.get('callee') in ('vsnprintf', 'snprintf')):
+                continue
+            rv = s.ev['lhs']['name'] if s.ev['k'] == 'store' and is_var(s.ev.get('lhs')) else s.ev.get('var')
+            size = const_of(rhs['args'][1]) if len(rhs['args']) > 1 else None
+            if rv is None or not isinstance(size, int):
+                continue
+            tested = False
+            for b in f.reachable_blocks():
+                for e in f.out[b]:
+                    r = e.rel() if e.cond is not None and e.label not in ('case', 'default') else None
+                    if not r:
+                        continue
+                    l = r[0]
+                    while isinstance(l, dict) and l.get('k') == 'cast':
+                        l = l.get('e')
+                    if is_var(l, rv) and isinstance(const_of(r[2]), int) and const_of(r[2]) in (size, size - 1) and r[1] in ('<', '<=', '>', '>='):
+                        tested = True
+            n += 1
+            R.ob(rule, tested, s, 'in %s the result of %s into a %d-byte buffer is compared with that size before the buffer is used as the whole text' % (f.name, rhs['callee'], size), key='complete-text:%s' % f.name)
+    R.floor(rule, 1, 'bounded formatter calls in the logging unit')
+
+
 def final(e):
     while isinstance(e, dict) and e.get('k') == 'bin' and e['op'] == '=':
         e = e['r']
@@ -433,6 +464,7 @@ def run(P, R, tier):
     range_bounds(P, R)
     exact_names(P, R)
     destination_identity(P, R)
+    complete_text(P, R)
     wiring(P, R, h)
     record_format(P, R)
     # destinations are string (list) values: a reload reroutes only if the setters notice every change
